@@ -11,6 +11,7 @@ import ZstdVerif.Lemmas.LitRT
 import ZstdVerif.Lemmas.SeqRT
 import ZstdVerif.Lemmas.FrameRT
 import ZstdVerif.Lemmas.BlockRT
+import ZstdVerif.Lemmas.NCountRT
 namespace ZstdVerif.Props.C01
 open ZstdVerif
 
@@ -368,30 +369,59 @@ open Gen FSE SeqEnc LitEnc BlockEnc Rep BlockRT in
 parse of `x` that is valid against that history (`Exec.ValidParse`: what a match finder may legally output - overlapping matches, repeat
 offsets, dictionary matches included).  Store the offsets the way the compressor does (ZSTD_finalizeOffBase / ZSTD_updateRep along its history),
 write the block body the way ZSTD_entropyCompressSeqStore_internal does (literals section raw / RLE / Huffman, nbSeq field, modes byte, RLE
-symbols, the three-state FSE bit stream; sequence tables predefined or RLE).  Then `Block.decodeBlock` (ZSTD_decompressBlock_internal) on those
-bytes returns exactly the content, and leaves the decoder's repeat-offset history equal to the compressor's - so the next block starts in
-lock step. -/
+symbols and FSE_writeNCount table descriptions, the three-state FSE bit stream; each sequence table predefined (`set_basic`), RLE (`set_rle`),
+described in the block (`set_compressed`) or repeated from the previous block with sequences (`set_repeat`); `pt` = the resolved decisions of
+that previous block, `none` if there is none).  Then `Block.decodeBlock` (ZSTD_decompressBlock_internal) on those bytes returns exactly the
+content, leaves the decoder's repeat-offset history equal to the compressor's, and leaves the decoder carrying the sequence tables of
+`nextTables pt t ..` (`EntMatch`) - so the next block starts in lock step.  Table hypotheses: `set_repeat` only when a previous block with
+sequences exists (`hrp`), the decoder carries its tables (`hent`), the resolved decisions are acceptable to the decoder (`TablesOK`: for a
+described table a normalised distribution with `5 ≤ tableLog ≤` LLFSELog / OffFSELog / MLFSELog, alphabet within MaxLL / MaxOff / MaxML, last
+symbol present, and the two checked spreading facts) and express the codes of the sequences (`CodesOK`).  With `pt = none` and `t` made of
+predefined / RLE tables these hold as before (`block_roundtrip_basic`). -/
 theorem block_roundtrip (dict pre prev x lits : ByteArray) (raws : List SeqRT.RawSeq) (c : LitChoice) (t : Tables)
+    (src : Bytes) (start : Nat) (ent : Block.Entropy) (bsm cap : Nat) (pt : Option Tables)
+    (hv : Exec.ValidParse dict prev x lits (raws.map toSeq))
+    (hx : x.size ≤ bsm) (hb17 : bsm ≤ 2 ^ 17) (hoff : ∀ q ∈ raws, q.rawOffset + 3 < 2 ^ 32)
+    (hrep : RepPos (SeqRT.repOf ent.rep)) (hent : EntMatch pt ent)
+    (hc : LitOK c lits) (hrp : usesRepeat t = true → pt.isSome = true) (hT : TablesOK (Tables.resolve (pt.getD {}) t))
+    (hok : CodesOK (Tables.resolve (pt.getD {}) t) (SeqRT.storeAll (SeqRT.repOf ent.rep) raws).1)
+    (H : FrameRT.Holds src start (serializeBlockBody c lits t (SeqRT.storeAll (SeqRT.repOf ent.rep) raws).1 (pt.getD {})))
+    (hsize : (serializeBlockBody c lits t (SeqRT.storeAll (SeqRT.repOf ent.rep) raws).1 (pt.getD {})).size ≤ bsm)
+    (hcap : pre.size + prev.size + x.size ≤ cap) :
+    ∃ ent2 tr, Block.decodeBlock src start (serializeBlockBody c lits t (SeqRT.storeAll (SeqRT.repOf ent.rep) raws).1 (pt.getD {})).size
+        ent dict { out := pre ++ prev, frameStart := pre.size, cap := cap } bsm = .ok (pre ++ prev ++ x, ent2, tr) ∧
+      SeqRT.repOf ent2.rep = (SeqRT.storeAll (SeqRT.repOf ent.rep) raws).2 ∧ RepPos (SeqRT.repOf ent2.rep) ∧ tr.nbSeq = raws.length ∧
+      EntMatch (nextTables pt t (SeqRT.storeAll (SeqRT.repOf ent.rep) raws).1) ent2 :=
+  BlockRT.block_roundtrip dict pre prev x lits raws c t src start ent bsm cap pt hv hx hb17 hoff hrep hent hc hrp hT hok H hsize hcap
+
+open Gen FSE SeqEnc LitEnc BlockEnc Rep BlockRT in
+/-- **block_roundtrip_basic**: `block_roundtrip` for a block on its own (no `set_repeat`, nothing known about earlier blocks): the statement
+as it read before `set_compressed` / `set_repeat` were covered, now also for described tables (`TablesOK t` is `True` for predefined / RLE
+tables: `BlockRT.tablesOK_default`). -/
+theorem block_roundtrip_basic (dict pre prev x lits : ByteArray) (raws : List SeqRT.RawSeq) (c : LitChoice) (t : Tables)
     (src : Bytes) (start : Nat) (ent : Block.Entropy) (bsm cap : Nat)
     (hv : Exec.ValidParse dict prev x lits (raws.map toSeq))
     (hx : x.size ≤ bsm) (hb17 : bsm ≤ 2 ^ 17) (hoff : ∀ q ∈ raws, q.rawOffset + 3 < 2 ^ 32)
     (hrep : RepPos (SeqRT.repOf ent.rep))
-    (hc : LitOK c lits) (hok : CodesOK t (SeqRT.storeAll (SeqRT.repOf ent.rep) raws).1)
+    (hc : LitOK c lits) (hnr : usesRepeat t = false) (hT : TablesOK t) (hok : CodesOK t (SeqRT.storeAll (SeqRT.repOf ent.rep) raws).1)
     (H : FrameRT.Holds src start (serializeBlockBody c lits t (SeqRT.storeAll (SeqRT.repOf ent.rep) raws).1))
     (hsize : (serializeBlockBody c lits t (SeqRT.storeAll (SeqRT.repOf ent.rep) raws).1).size ≤ bsm)
     (hcap : pre.size + prev.size + x.size ≤ cap) :
     ∃ ent2 tr, Block.decodeBlock src start (serializeBlockBody c lits t (SeqRT.storeAll (SeqRT.repOf ent.rep) raws).1).size ent dict
         { out := pre ++ prev, frameStart := pre.size, cap := cap } bsm = .ok (pre ++ prev ++ x, ent2, tr) ∧
       SeqRT.repOf ent2.rep = (SeqRT.storeAll (SeqRT.repOf ent.rep) raws).2 ∧ RepPos (SeqRT.repOf ent2.rep) ∧ tr.nbSeq = raws.length :=
-  BlockRT.block_roundtrip dict pre prev x lits raws c t src start ent bsm cap hv hx hb17 hoff hrep hc hok H hsize hcap
+  BlockRT.block_roundtrip_basic dict pre prev x lits raws c t src start ent bsm cap hv hx hb17 hoff hrep hc hnr hT hok H hsize hcap
 
 open HeaderW BlockEnc BlockRT in
 /-- **roundtrip** (the headline statement of this property, for the modelled back end): for every input `x`, every accepted frame-parameter
 tuple, and EVERY tiling of `x` into raw blocks, RLE blocks and compressed blocks each carrying ANY valid parse of its stretch (`FrameOK2`), the
 frame written the way the compressor's back end writes it is decoded by the full decoder model (ZSTD_decompress) to exactly `x`.  The match
 finders, the optimal parser, the block splitter and the mode heuristics only ever choose WHICH valid parse and tiling to emit; the theorem
-quantifies over all of them.  Scope: sequence tables in predefined or RLE mode, Huffman tree descriptions in direct form (FSE-described tables
-and treeless literals are decoded by the model and checked per frame, but not in the serializer yet). -/
+quantifies over all of them.  Scope: sequence tables in all four modes of `symbolEncodingType_e` - predefined, RLE, described by
+FSE_writeNCount (`set_compressed`; the normalised counts are a decision, any distribution `BlockRT.TableOK` accepts) and repeated from the
+previous compressed block with sequences of the same frame (`set_repeat`; a dictionary's tables are not offered for repetition) - and
+Huffman tree descriptions in direct form (FSE-compressed tree descriptions and treeless literals are decoded by the model and checked
+per frame, but not in the serializer yet). -/
 theorem roundtrip (a : HArgs) (bs : List BlockChoice2) (x : ByteArray) (dict : Frame.Dict)
     (hok : FrameOK2 dict.content a bs x) (hrep0 : SeqRT.repOf dict.ent.rep = repStart)
     (cap : Nat) (hcap : x.size ≤ cap) (o : Frame.Opts) (hml : o.magicless = false) (hmb : o.maxBlockSize = 0) :
@@ -404,6 +434,20 @@ theorem codesOK_predefined (rep : Rep.R) (raws : List SeqRT.RawSeq)
     (h : ∀ q ∈ raws, q.litLength < 2 ^ 17 ∧ q.mlBase < 2 ^ 17 ∧ 1 ≤ q.rawOffset ∧ q.rawOffset + 3 < 2 ^ 29) :
     CodesOK {} (SeqRT.storeAll rep raws).1 :=
   BlockRT.codesOK_predefined rep raws h
+
+/-! ### FSE table descriptions: FSE_writeNCount is read back by FSE_readNCount -/
+
+open FSE NCountW NCountRT in
+/-- **ncount_roundtrip**: for EVERY normalised distribution (counts >= -1 summing to 2^L, 5 <= L <= 12, last count non-zero - what ZSTD_buildCTable
+passes) the description written by the model of FSE_writeNCount (variable-length count fields, zero-run codes in groups of 24 and 3, 16-bit flushes)
+is read back by the decoder model's `FSE.readNCount` as exactly that distribution, that table log and that many bytes, whatever bytes follow it and
+through both the >= 8 bytes and the padded < 8 bytes paths -/
+theorem ncount_roundtrip (norm : Array Int) (L : Nat) (hN : NormOK norm L) (hL5 : 5 ≤ L) (hL12 : L ≤ 12)
+    (hlast : norm[norm.size - 1]! ≠ 0) (maxSV : Nat) (hsz : norm.size ≤ maxSV + 1)
+    (src : Bytes) (start n : Nat) (hn : (writeNCount norm L).size ≤ n)
+    (hsrc : src.extract start (start + (writeNCount norm L).size) = writeNCount norm L) :
+    FSE.readNCount src start n maxSV = .ok { norm := norm, tableLog := L, used := (writeNCount norm L).size } :=
+  NCountRT.ncount_roundtrip norm L hN hL5 hL12 hlast maxSV hsz src start n hn hsrc
 
 /-! ### sequence execution: any valid parse regenerates its source -/
 
